@@ -71,7 +71,26 @@ def call_shapes(sig):
     return res
 
 
-def make_project(kind, sig, calls, host, wrapped=False):
+# a non-import `from` before the call sites and an import statement after them
+NOISE_BEFORE = "def gen():\n    yield from ()\n\n\ntry:\n    sent_from = 1\nexcept Exception as exc:\n    raise RuntimeError('x') from exc\n\n"
+NOISE_AFTER = "\nimport xlate\nfrom xlate import late\n"
+
+
+def make_project(kind, sig, calls, host, wrapped=False, noise=False):
+    files, usemod = _make_project(kind, sig, calls, host, wrapped)
+    if noise:
+        files = dict(files)
+        src = files[usemod]
+        if usemod == "xd.py":
+            files[usemod] = NOISE_BEFORE + src + NOISE_AFTER
+        else:
+            head, _, rest = src.partition("\n\n")
+            files[usemod] = head + "\n\n" + NOISE_BEFORE + rest + NOISE_AFTER
+        files["xlate.py"] = "late = 1\n"
+    return files, usemod
+
+
+def _make_project(kind, sig, calls, host, wrapped=False):
     st = sig_text(sig)
     if wrapped:
         # header wrapped over several physical lines, one parameter per line
@@ -236,6 +255,8 @@ class C06(Check):
                         out.append({"sig": si, "kind": kind, "host": host, "calls": [c], "pairs": tier == "thorough"})
                         if host == "same" and kind in ("function", "method", "ctor") or tier == "thorough":
                             out.append({"sig": si, "kind": kind, "host": host, "calls": [c], "pairs": False, "wrapped": True})
+                        if kind in ("function", "method") and si in (1, 2, 4):
+                            out.append({"sig": si, "kind": kind, "host": host, "calls": [c], "pairs": False, "noise": True})
                     if kind in ("function", "ctor") or tier == "thorough":
                         for c1 in range(len(shapes)):
                             for c2 in range(len(shapes)):
@@ -312,7 +333,7 @@ class C06(Check):
         sig = SIGS[case["sig"]]
         shapes = call_shapes(sig)
         calls = [shapes[c] for c in case["calls"]]
-        files, usemod = make_project(case["kind"], sig, calls, case["host"], case.get("wrapped", False))
+        files, usemod = make_project(case["kind"], sig, calls, case["host"], case.get("wrapped", False), case.get("noise", False))
         if compiles(files):
             return {"harness": "generated project does not compile %r" % files}
         base = run_project(files)
@@ -344,6 +365,8 @@ class C06(Check):
         feats0 = ["kind:" + case["kind"], "host:" + case["host"], "ncalls:%d" % len(calls)]
         if case.get("wrapped"):
             feats0.append("header:wrapped")
+        if case.get("noise"):
+            feats0.append("module:from-keyword-before-and-import-after-the-calls")
         if any(n == "*" for n, _ in sig):
             feats0.append("sig:has-*args")
         if any(n == "**" for n, _ in sig):
